@@ -425,6 +425,110 @@ def handover_part(res, rng, big):
     ep.close()
 
 
+class HookedCondition:
+    """the queue's Condition with a hook that runs right before the lock is taken (a thread switch at that point)"""
+
+    def __init__(self, real, hook):
+        self._real, self._hook = real, hook
+
+    def __enter__(self):
+        self._hook()
+        return self._real.__enter__()
+
+    def __exit__(self, *a):
+        return self._real.__exit__(*a)
+
+    def __getattr__(self, name):
+        return getattr(self._real, name)
+
+
+def pop_race_part(res, rng, big):
+    """The connection's thread appends the next segment at the moment the receiver thread is about to take the lock inside `ByteQueue.pop`
+    for the last complete frame.  `pop(size)` has to hand out exactly that frame; the appended bytes stay for the next look."""
+    import time
+    ep = Endpoint()
+    buf = ep.p._receive_buffer
+    real = buf._buffer_lock
+    state = {"seg": None}
+
+    def hook():
+        seg = state["seg"]
+        if seg is not None and sys._getframe(2).f_code.co_name == "pop":
+            state["seg"] = None
+            with real:
+                buf._buffer.extend(seg)          # what `ByteQueue.append` does, landing between pop's entry and its lock
+    buf._buffer_lock = HookedCondition(real, hook)
+    for i in range(8 if big else 4):
+        fa, fb = gen_valid_frames(rng, 2)
+        split = len(fb[2]) if i % 2 == 0 else rng.range(1, len(fb[2]) - 1)
+        before = len(ep.got)
+        state["seg"] = fb[2][:split]
+        ep.feed([fa[2]])
+        M.wait_until(lambda: state["seg"] is None, 1.0)
+        if split < len(fb[2]):
+            ep.feed([fb[2][split:]])
+        ok = M.wait_until(lambda: len(ep.got) >= before + 2 and len(ep.p._receive_buffer) == 0, 1.5)
+        got = [(M.hdr_fields(g.header), bytes(g.data)) for g in ep.got[before:]]
+        want = [(list(map(int, f[0])), f[1]) for f in (fa, fb)]
+        res.count(("pop-race", fa[2], fb[2], split), sample={"op": "append lands right before pop takes the lock", "second_segment_bytes": split} if i == 0 else None)
+        res.bump("pop_race", "both delivered" if ok and got == want else "lost")
+        if not ok or got != want:
+            res.violate("pop-append-race", "a segment appended while the receiver thread enters ByteQueue.pop for the last complete frame: the frames "
+                        "are not both delivered (pop handed out more than the requested bytes / frames lost)",
+                        {"kind": "pop-race", "frames": [fa[2].hex(), fb[2].hex()], "appended_before_lock": split}, 2, len(got))
+            break
+    buf._buffer_lock = real
+    ep.close()
+
+
+def dispatch_handover_part(res, rng, big):
+    """The dispatcher thread is at its `trigger.clear()` when the next block is queued (`queue_block`: put, set).  Wherever `clear()` stands in
+    the loop, the block queued at that moment is the last of its burst and has to be dispatched without a later frame arriving."""
+    import threading
+    ep = Endpoint.__new__(Endpoint)
+    ep.s, ep.p, ep.c = M.new_protocol()
+    ep.got = []
+    orig = ep.p._thread._dispatcher_target
+    ep.p._thread._dispatcher_target = lambda source, block: (ep.got.append(block), orig(source, block))[1]
+    disp = ep.p._thread
+    state = {"frame": None, "queued": 0}
+    real_queue_block = disp.queue_block
+
+    def counting_queue_block(source, block):
+        real_queue_block(source, block)
+        state["queued"] += 1
+    disp.queue_block = counting_queue_block
+
+    class GateEvent(threading.Event):
+        def clear(self):
+            fr = state["frame"]
+            if fr is not None:
+                state["frame"] = None
+                n = state["queued"]
+                ep.c.on_data({"source": ep.c, "data": fr})          # the next frame arrives now …
+                M.wait_until(lambda: state["queued"] > n, 1.0)       # … and is queued for dispatch before clear() goes on
+            super().clear()
+    disp._dispatcher_thread_trigger = GateEvent()
+    ep.c.on_connected({"source": ep.c})
+    for i in range(8 if big else 4):
+        fa, fb = gen_valid_frames(rng, 2)
+        before = len(ep.got)
+        state["frame"] = fb[2]
+        ep.feed([fa[2]])
+        ok = M.wait_until(lambda: len(ep.got) >= before + 2, 1.5)
+        got = [(M.hdr_fields(g.header), bytes(g.data)) for g in ep.got[before:]]
+        want = [(list(map(int, f[0])), f[1]) for f in (fa, fb)]
+        res.count(("dispatch-handover", fa[2], fb[2]), sample={"op": "block queued while the dispatcher thread is at trigger.clear()"} if i == 0 else None)
+        res.bump("dispatch_handover", "both dispatched" if ok and got == want else "last block not dispatched")
+        if not ok or got != want:
+            res.violate("dispatch-lost-wakeup", "a block queued while the dispatcher thread is at its trigger.clear() (last block of its burst) is "
+                        "not dispatched within 1.5 s: it sits in the dispatch queue until a later frame arrives",
+                        {"kind": "dispatch-handover", "frames": [fa[2].hex(), fb[2].hex()]}, 2,
+                        {"dispatched": len(got), "left_in_dispatch_queue": disp._dispatch_queue.qsize()})
+            break
+    ep.close()
+
+
 def replay_cases(res, violations):
     """re-run recorded failing cases that carry their own data"""
     ep = None
@@ -464,7 +568,9 @@ def main():
     for name, part in (("codec", lambda: codec_part(res, rng.fork("codec"), drv, big)),
                        ("feed", lambda: feed_part(res, rng.fork("feed"), drv, big)),
                        ("threads", lambda: threads_part(res, rng.fork("threads"), big)),
-                       ("handover", lambda: handover_part(res, rng.fork("handover"), big))):
+                       ("handover", lambda: handover_part(res, rng.fork("handover"), big)),
+                       ("pop race", lambda: pop_race_part(res, rng.fork("poprace"), big)),
+                       ("dispatch handover", lambda: dispatch_handover_part(res, rng.fork("disphand"), big))):
         M.guarded(res, name, part)
     res.notes.append("quiescence of the threaded runs = expected number of blocks captured, receive buffer and dispatch queue empty (bound 5 s)")
     res.dump(a.out)
